@@ -104,6 +104,27 @@ pub fn topologies(thorough: bool) -> Vec<Topo> {
         f[6].speed_limits = vec![(0.0, 2000.0, 10.0)];
         v.push(finish("two-sidings", f, vec![("W", vec![1]), ("E", vec![9])], vec![(0, 1, true), (1, 0, false)]));
     }
+    // T6: intermediate terminal: YW(1) -> MID(2, 12 km, also a destination/origin) -> [M(3) | SD(4)] -> S2(5) -> YE(6)
+    // (trains with different destinations follow each other; one terminates on the link in which the other is held
+    // at the turnout)
+    {
+        let lens = [YARD, 12_000.0, 2000.0, 2000.0, 3000.0, YARD];
+        let mut f: Vec<FwdLink> = lens.iter().map(|l| FwdLink::new(*l, 20.0)).collect();
+        let set = |f: &mut Vec<FwdLink>, i: usize, prev: usize, prev_alt: usize, next: usize, next_alt: usize| {
+            f[i - 1].prev = prev;
+            f[i - 1].prev_alt = prev_alt;
+            f[i - 1].next = next;
+            f[i - 1].next_alt = next_alt;
+        };
+        set(&mut f, 1, 0, 0, 2, 0);
+        set(&mut f, 2, 1, 0, 3, 4);
+        set(&mut f, 3, 2, 0, 5, 0);
+        set(&mut f, 4, 2, 0, 5, 0);
+        set(&mut f, 5, 3, 4, 6, 0);
+        set(&mut f, 6, 5, 0, 0, 0);
+        f[3].speed_limits = vec![(0.0, 2000.0, 10.0)];
+        v.push(finish("mid-terminal", f, vec![("W", vec![1]), ("MID", vec![2]), ("E", vec![6])], vec![(0, 2, true), (0, 1, true), (2, 0, false), (2, 1, false), (1, 2, true)]));
+    }
     // T4: junction  A(1), B(2) merge into C(3) -> D(4); terminals A, B, D
     {
         let mut f: Vec<FwdLink> = [YARD, YARD, 3000.0, YARD].iter().map(|l| FwdLink::new(*l, 20.0)).collect();
